@@ -1,5 +1,5 @@
 --------------------------- MODULE MC_VarInt_thorough --------------------------
 EXTENDS MC_VarInt
-MCReaderInputs == {5, 10} \X Streams(12, 1..7)
-MCWriterInputs == Below(3) \cup Powers \cup Negatives
+MCReaderInputs == <<Ladders, Three>> \o ShapeSets(12, 7)
+MCWriterInputs == Powers \cup Negatives
 =============================================================================
